@@ -215,7 +215,23 @@ func main() {
 		&sdf.Triangle3{{X: -512345.6789, Y: 4321.0123, Z: 777777.7}, {X: -512345.6589, Y: 4321.0223, Z: 777777.7}, {X: -512345.6789, Y: 4321.0323, Z: 777777.73}},
 		&sdf.Triangle3{{X: 1, Y: 0, Z: 0}, {X: 0, Y: 1, Z: 0}, {X: 0, Y: 0, Z: 1}},
 		&sdf.Triangle3{{X: 0.1, Y: 0.2, Z: 0.3}, {X: 0.4, Y: 0.5, Z: 0.6}, {X: 0.7, Y: 0.8, Z: 0.95}},
-		&sdf.Triangle3{{X: 100, Y: 100, Z: 100}, {X: 100 + 1e-6, Y: 100, Z: 100}, {X: 100, Y: 100 + 1e-6, Z: 100}})
+		&sdf.Triangle3{{X: 100, Y: 100, Z: 100}, {X: 100 + 1e-6, Y: 100, Z: 100}, {X: 100, Y: 100 + 1e-6, Z: 100}},
+		// slivers whose float32-rounded corners wind the other way round than the input (round 8): the stored normal
+		// (from the float64 input) and the stored corners disagree, and the loader must return the corners as stored
+		&sdf.Triangle3{{X: 0, Y: 0, Z: 0}, {X: 1, Y: 1 + 6e-8, Z: 0}, {X: 3, Y: 3 + 2e-7, Z: 0}},
+		&sdf.Triangle3{{X: 2500.0001, Y: -2100.0002, Z: 7}, {X: 2500.0003, Y: -2100.00005, Z: 7}, {X: 2500.00012, Y: -2100.00041, Z: 7}})
+	{
+		flipped := 0
+		for _, t := range menu {
+			r := func(v v3.Vec) v3.Vec { return v3.Vec{X: float64(float32(v.X)), Y: float64(float32(v.Y)), Z: float64(float32(v.Z))} }
+			n64 := t[1].Sub(t[0]).Cross(t[2].Sub(t[0]))
+			n32 := r(t[1]).Sub(r(t[0])).Cross(r(t[2]).Sub(r(t[0])))
+			if n64.Dot(n32) < 0 {
+				flipped++
+			}
+		}
+		c.Guard("menu holds a triangle whose float32 rounding reverses its orientation", flipped >= 1, fmt.Sprint(flipped))
+	}
 	var lists [][]*sdf.Triangle3
 	lists = append(lists, nil, big)
 	for _, t := range big {
@@ -248,10 +264,10 @@ func main() {
 	for _, n := range vlib.Pick(c, []int{81, 82, 255, 256, 257, 1000}, []int{81, 82, 83, 255, 256, 257, 511, 512, 513, 1000, 70000}) {
 		lists = append(lists, long(n))
 	}
-	if c.Thorough() {
-		for n := 3; n <= 1100; n++ { // every length across four flush thresholds of the 256-triangle buffer
-			lists = append(lists, long(n))
-		}
+	// every length up to a bound (across the flush thresholds of the 256-triangle buffer, and whatever block size a
+	// writer may use internally): quick 3..1400, thorough 3..4100
+	for n := 3; n <= vlib.Pick(c, 1400, 4100); n++ {
+		lists = append(lists, long(n))
 	}
 	states += c.ParFor(len(lists), func(i int) {
 		ts := lists[i]
